@@ -126,7 +126,10 @@ Section Resolve.
 
   Definition doc_resolve (imps : list (string * string)) (std : scope) (r : req) : option resolved :=
     match r with
-    | RTypePat pkg name => match doc_binding imps std pkg with Some p => Some (ResType p name) | None => None end
+    | RTypePat pkg name => match doc_binding imps std pkg with
+                           | Some p => match world p name with Some _ => Some (ResType p name) | None => None end
+                           | None => None
+                           end
     | RIface (IQual pkg name) => find_iface (doc_path imps std pkg) name
     | RIface (IFqn path name) => find_iface path name
     | RFuncRef pkg tname meth => find_method (doc_path imps std pkg) tname meth
@@ -179,21 +182,33 @@ Section Resolve.
       + exists [GFailed]. split; [reflexivity|]. cbn. constructor; [assumption|constructor].
   Qed.
 
+  (* type patterns are resolved without looking into the package (typematch.Parse only knows the table): the
+     documented resolution additionally requires the name to exist (recorded finding type-pattern-unknown-name) *)
+  Definition typepat_known (imps : list (string * string)) (std : scope) (r : req) : Prop :=
+    match r with
+    | RTypePat pkg name => forall p, doc_binding imps std pkg = Some p -> world p name <> None
+    | _ => True
+    end.
+
   (* on the engine's base table (one scope: the stdlib defaults) every resolver follows the documented precedence *)
   Theorem resolution_is_documented std g r s' :
     load_all (enter [std]) (g_imports g) = Ok (s' :: [std]) ->
     (forall n, sassoc n s' = last_import (g_imports g) n) ->
+    typepat_known (g_imports g) std r ->
     resolve (s' :: [std]) r = doc_resolve (g_imports g) std r.
   Proof.
-    intros _ L.
+    intros _ L K.
     assert (LK : forall name, lookup (s' :: [std]) name = doc_binding (g_imports g) std name).
     { intros name. unfold doc_binding. cbn. rewrite L. destruct (last_import (g_imports g) name); [reflexivity|].
       destruct (sassoc name std); reflexivity. }
-    destruct r as [pkg name|[pkg name|path name]|pkg tn m]; cbn [resolve doc_resolve]; unfold pkg_path, doc_path; rewrite ?LK; reflexivity.
+    destruct r as [pkg name|[pkg name|path name]|pkg tn m]; cbn [resolve doc_resolve]; unfold pkg_path, doc_path; rewrite ?LK; try reflexivity.
+    cbn in K. destruct (doc_binding (g_imports g) std pkg) as [p|]; [|reflexivity].
+    specialize (K p eq_refl). destruct (world p name); [reflexivity|contradiction].
   Qed.
 
+  (* the resolution of a whole group inside load_group is the documented one *)
   Corollary group_resolves_documented std g :
-    g_skip g = false ->
+    g_skip g = false -> Forall (typepat_known (g_imports g) std) (g_reqs g) ->
     group_result [std] g =
       match (fix go rs := match rs with
                           | [] => Some []
@@ -206,14 +221,15 @@ Section Resolve.
       | None => GFailed
       end.
   Proof.
-    intros Hs. unfold group_result, load_group. rewrite Hs.
+    intros Hs HK. unfold group_result, load_group. rewrite Hs.
     destruct (load_all_shape [] [std] (g_imports g)) as (s' & E & L). unfold enter. rewrite E. cbn.
     assert (L' : forall n, sassoc n s' = last_import (g_imports g) n).
     { intros n. rewrite L. destruct (last_import (g_imports g) n); reflexivity. }
-    assert (R : forall r, resolve (s' :: [std]) r = doc_resolve (g_imports g) std r).
+    assert (R : forall r, typepat_known (g_imports g) std r -> resolve (s' :: [std]) r = doc_resolve (g_imports g) std r).
     { intros r. eapply resolution_is_documented; eassumption. }
     induction (g_reqs g) as [|r rest IH]; cbn; [reflexivity|].
-    rewrite R. destruct (doc_resolve (g_imports g) std r); [|reflexivity].
+    inversion HK as [|? ? Kr Krest]; subst. specialize (IH Krest).
+    rewrite (R r Kr). destruct (doc_resolve (g_imports g) std r); [|reflexivity].
     destruct (resolve_all (s' :: [std]) rest); destruct ((fix go rs := match rs with
                           | [] => Some []
                           | r :: rest => match doc_resolve (g_imports g) std r with
@@ -236,3 +252,31 @@ Section Resolve.
     rewrite RA. destruct (leave t2); reflexivity.
   Qed.
 End Resolve.
+
+(* ---------------------------------------------------------------- helpers for running the model on harness scenarios *)
+Definition show_res (r : resolved) : string :=
+  match r with
+  | ResType p n => "ResType " ++ p ++ " " ++ n
+  | ResIface p n => "ResIface " ++ p ++ " " ++ n
+  | ResMethod p t m => "ResMethod " ++ p ++ " " ++ t ++ " " ++ m
+  end.
+
+Definition show_gres (g : gres) : string :=
+  match g with
+  | GSkipped => "skipped"
+  | GFailed => "failed"
+  | GLoaded rs => String.concat "," (map show_res rs)
+  end.
+
+Definition world_of (tbl : list (string * string * tkind)) (path name : string) : option tkind :=
+  match find (fun e => String.eqb (fst (fst e)) path && String.eqb (snd (fst e)) name) tbl with
+  | Some e => Some (snd e)
+  | None => None
+  end.
+
+(* one rules file on the engine's base table [std]; the final table is reported too ("balanced" / "UNBALANCED") *)
+Definition run_file (tbl : list (string * string * tkind)) (std : scope) (gs : list group) : string :=
+  match load_file (world_of tbl) [std] gs with
+  | Ok (t, rs) => String.concat "|" (map show_gres rs) ++ (if (List.length t =? 1)%nat then "" else "|UNBALANCED")
+  | Panic _ => "panic"
+  end.
